@@ -10,6 +10,11 @@ open SaVerif.Expr.Gen SaVerif.Pratt
 
 def arithK (k : BinK) : Bool := k = .add || k = .sub || k = .mul || k = .mod
 
+def divK (k : BinK) : Bool := k = .truediv || k = .floordiv
+
+/-- the arithmetic operators of the fragment -/
+def numK (k : BinK) : Bool := arithK k || divK k
+
 def cmpK (k : BinK) : Bool :=
   k = .eq || k = .ne || k = .lt || k = .le || k = .gt || k = .ge || k = .is_ || k = .isnot
 
@@ -20,7 +25,7 @@ def NumU : U → Bool
   | .col _ ty => ty = .int || ty = .num
   | .li _ => true
   | .ln _ => true
-  | .bin k a b => arithK k && NumU a && NumU b
+  | .bin k a b => numK k && NumU a && NumU b
   | .neg a => NumU a
   | .subq _ ty => ty = .int || ty = .num
   | .cast ty a => (ty = .int || ty = .num) && NumU a
@@ -38,12 +43,20 @@ def SearchedU : List U → Bool
   | [] => true
   | [_] => false
   | c :: r :: rest => BoolU c && NumU r && SearchedU rest
-/-- boolean API-call trees: comparisons and IS / IS NOT of numeric trees, `== NULL`-style tests,
-    `and_` / `or_` of one or more boolean trees, `~` -/
+/-- string-valued API-call trees: string columns and literals, `a.concat(b)` / `a + b` whose
+    operands are string-valued or numeric trees (`(ia + 1).concat(sa)` is what finding F1 is about) -/
+def StrU : U → Bool
+  | .col _ ty => ty = .str
+  | .ls _ => true
+  | .bin k a b => k = .concat && (StrU a || NumU a) && (StrU b || NumU b)
+  | _ => false
+/-- boolean API-call trees: comparisons and IS / IS NOT of numeric or string-valued trees,
+    `== NULL`-style tests, `and_` / `or_` of one or more boolean trees, `~` -/
 def BoolU : U → Bool
   | .bin k a b =>
-    cmpK k && NumU a &&
-      (NumU b || (match b with | .null => k = .eq || k = .ne || k = .is_ || k = .isnot | _ => false))
+    cmpK k && (NumU a || StrU a) &&
+      ((NumU b || StrU b) ||
+        (match b with | .null => k = .eq || k = .ne || k = .is_ || k = .isnot | _ => false))
   | .not_ a => BoolU a
   | .and_ cs => !cs.isEmpty && BoolUList cs
   | .or_ cs => !cs.isEmpty && BoolUList cs
@@ -73,9 +86,17 @@ structure NumE (e : SaExpr) : Prop where
   ty : numTy (SaExpr.tyOf e) = true
   shape : numShape e = true
 
+/-- a value operand: what comparisons and concatenations need to know about their operands -/
+structure OpndE (e : SaExpr) : Prop where
+  core : Core e = true
+  wg : WG e = true
+  shape : numShape e = true
+
+theorem NumE.opnd {e : SaExpr} (h : NumE e) : OpndE e := ⟨h.core, h.wg, h.shape⟩
+
 /-- shapes `build` produces for boolean trees, with what `negate` needs to know -/
 def boolShape : SaExpr → Bool
-  | .binary _ _ _ (some n) none _ => coreBin n
+  | .binary op _ _ (some n) none _ => coreBin op && coreBin n
   | .clist op _ _ true _ => op = .and_ || op = .or_
   | .unary op _ _ => op = .inv
   | _ => false
@@ -109,6 +130,17 @@ theorem arithK_coreBin : ∀ k : BinK, arithK k = true → coreBin k.op = true :
 theorem arithK_isArith : ∀ k : BinK, arithK k = true → k.isArith = true := by
   intro k h
   cases k <;> simp [arithK] at h <;> rfl
+
+theorem numK_isArith : ∀ k : BinK, numK k = true → k.isArith = true := by
+  intro k h
+  cases k <;> simp [numK, arithK, divK] at h <;> rfl
+
+theorem numK_cases {k : BinK} (h : numK k = true) : arithK k = true ∨ divK k = true := by
+  simpa [numK] using h
+
+theorem divK_coreDiv : ∀ k : BinK, divK k = true → coreDiv k.op = true := by
+  intro k h
+  cases k <;> simp [divK] at h <;> rfl
 
 theorem cmpK_not_isArith : ∀ k : BinK, cmpK k = true → k.isArith = false := by
   intro k h
@@ -247,6 +279,17 @@ theorem constructForOp_core (l r : SaExpr) (op : Op) (ty : Ty) (n : Option Op)
     obtain ⟨c1, w1⟩ := mkBinary_WG l r op ty n hop hcl hwl hcr hwr
     exact ⟨c1, w1, rfl, Or.inl ⟨_, _, rfl⟩⟩
 
+/-- `_construct_for_op` for the two divisions: never flattened -/
+theorem constructForOp_div (l r : SaExpr) (op : Op) (ty : Ty) (n : Option Op)
+    (hop : coreDiv op = true)
+    (hcl : Core l = true) (hwl : WG l = true) (hcr : Core r = true) (hwr : WG r = true) :
+    constructForOp l r op ty n none = mkBinary l r op ty n none ∧
+    Core (mkBinary l r op ty n none) = true ∧ WG (mkBinary l r op ty n none) = true := by
+  have ha : associative op = false := by
+    cases op <;> simp [coreDiv] at hop <;> decide
+  obtain ⟨c1, w1⟩ := mkBinary_WG' l r op ty n (coreBinD_of_div hop) hcl hwl hcr hwr
+  exact ⟨by simp [constructForOp, ha], c1, w1⟩
+
 end SaVerif.Expr
 
 namespace SaVerif.Expr
@@ -264,7 +307,7 @@ theorem adapt_num (op : Op) (lt rt : Ty) (h : numTy lt = true) :
   · exact ⟨rfl, rfl⟩
 
 /-- `x <op> y` for an arithmetic operator over numeric elements (`_binary_operate`) -/
-theorem binaryOperate_num (x y : SaExpr) (k : BinK) (hk : arithK k = true) (hx : NumE x) (hy : NumE y) :
+theorem binaryOperate_num (x y : SaExpr) (k : BinK) (hk : numK k = true) (hx : NumE x) (hy : NumE y) :
     NumE (binaryOperate x k.op y) := by
   obtain ⟨h1, h2⟩ := adapt_num k.op (tyOf x) (tyOf y) hx.ty
   unfold binaryOperate
@@ -272,16 +315,39 @@ theorem binaryOperate_num (x y : SaExpr) (k : BinK) (hk : arithK k = true) (hx :
       (k.op, (adaptExpression k.op (tyOf x) (tyOf y)).2) := Prod.ext h1 rfl
   rw [e]
   simp only
-  obtain ⟨c, w, t, sh⟩ := constructForOp_core x y k.op (adaptExpression k.op (tyOf x) (tyOf y)).2 none
-    (arithK_coreBin k hk) hx.core hx.wg hy.core hy.wg
-  refine ⟨c, w, by rw [t]; exact h2, ?_⟩
+  rcases numK_cases hk with hk | hk
+  · obtain ⟨c, w, t, sh⟩ := constructForOp_core x y k.op (adaptExpression k.op (tyOf x) (tyOf y)).2 none
+      (arithK_coreBin k hk) hx.core hx.wg hy.core hy.wg
+    refine ⟨c, w, by rw [t]; exact h2, ?_⟩
+    rcases sh with ⟨a, b, he⟩ | ⟨_, cs, he⟩ <;> rw [he] <;> rfl
+  · obtain ⟨he, c, w⟩ := constructForOp_div x y k.op (adaptExpression k.op (tyOf x) (tyOf y)).2 none
+      (divK_coreDiv k hk) hx.core hx.wg hy.core hy.wg
+    rw [he]
+    exact ⟨c, w, h2, rfl⟩
+
+theorem adapt_concat : ∀ lt rt : Ty, (adaptExpression .concat_op lt rt).1 = .concat_op := by
+  intro lt rt
+  cases lt <;> cases rt <;> rfl
+
+/-- `x.concat(y)` over value operands (`_binary_operate` with `concat_op`) -/
+theorem binaryOperate_concat (x y : SaExpr) (hx : OpndE x) (hy : OpndE y) :
+    OpndE (binaryOperate x .concat_op y) := by
+  have h1 := adapt_concat (tyOf x) (tyOf y)
+  unfold binaryOperate
+  have e : adaptExpression .concat_op (tyOf x) (tyOf y) =
+      (.concat_op, (adaptExpression .concat_op (tyOf x) (tyOf y)).2) := Prod.ext h1 rfl
+  rw [e]
+  simp only
+  obtain ⟨c, w, _, sh⟩ := constructForOp_core x y .concat_op (adaptExpression .concat_op (tyOf x) (tyOf y)).2 none
+    rfl hx.core hx.wg hy.core hy.wg
+  refine ⟨c, w, ?_⟩
   rcases sh with ⟨a, b, he⟩ | ⟨_, cs, he⟩ <;> rw [he] <;> rfl
 
 theorem negImpl_num (x : SaExpr) (hx : NumE x) : NumE (negImpl x) := by
   obtain ⟨c, w⟩ := unary_WG x .neg (tyOf x) rfl hx.core hx.wg
   exact ⟨c, w, hx.ty, rfl⟩
 
-theorem numE_not_const {x : SaExpr} (hx : NumE x) :
+theorem numE_not_const {x : SaExpr} (hx : OpndE x) :
     (match x with | .null => true | .true_ => true | .false_ => true | _ => false) = false := by
   have := hx.shape
   cases x <;> simp [numShape] at this <;> rfl
@@ -297,11 +363,11 @@ theorem boolE_of_construct (x y : SaExpr) (op : Op) (n : Op) (hop : coreBin op =
   obtain ⟨c, w, _, sh⟩ := constructForOp_core x y op .bool (some n) hop hcx hwx hcy hwy
   refine ⟨c, w, ?_⟩
   rcases sh with ⟨a, b, he⟩ | ⟨ha, _⟩
-  · rw [he]; simpa [boolShape] using hn
+  · rw [he]; simp [boolShape, hn, hop]
   · rw [hna] at ha; cases ha
 
 /-- comparison of two numeric elements (`_boolean_compare`, non-constant right side) -/
-theorem booleanCompare_num (x y : SaExpr) (k : BinK) (hk : cmpK k = true) (hx : NumE x) (hy : NumE y) :
+theorem booleanCompare_num (x y : SaExpr) (k : BinK) (hk : cmpK k = true) (hx : OpndE x) (hy : OpndE y) :
     ∃ e, booleanCompare x k.op y (negateOp k.op) none = some e ∧ BoolE e := by
   obtain ⟨n, hn⟩ := negate_isSome_cmp k hk
   have hc := numE_not_const hy
@@ -314,7 +380,7 @@ theorem booleanCompare_num (x y : SaExpr) (k : BinK) (hk : cmpK k = true) (hx : 
 
 /-- `x == None`, `x != None`, `x.is_(None)`, `x.is_not(None)` -/
 theorem booleanCompare_null (x : SaExpr) (k : BinK) (hk : k = .eq ∨ k = .ne ∨ k = .is_ ∨ k = .isnot)
-    (hx : NumE x) :
+    (hx : OpndE x) :
     ∃ e, booleanCompare x k.op .null (negateOp k.op) none = some e ∧ BoolE e := by
   have hnull : Core SaExpr.null = true ∧ WG SaExpr.null = true := ⟨rfl, rfl⟩
   rcases hk with h | h | h | h <;> subst h
@@ -355,8 +421,9 @@ theorem negate_bool (e : SaExpr) (h : BoolE e) : BoolE (negate e) := by
         simp only [Core, Bool.and_eq_true] at hc
         simp only [WG, Bool.and_eq_true] at hw
         simp only [negate, negateInBinary_core r n op hc.2]
-        obtain ⟨c, w⟩ := mkBinary_WG l r n ty (some op) hs hc.1.2 hw.1.2 hc.2 hw.2
-        exact ⟨c, w, by simpa [mkBinary, boolShape] using hc.1.1.1⟩
+        simp only [Bool.and_eq_true] at hs
+        obtain ⟨c, w⟩ := mkBinary_WG l r n ty (some op) hs.2 hc.1.2 hw.1.2 hc.2 hw.2
+        exact ⟨c, w, by simp [mkBinary, boolShape, hs.1, hs.2]⟩
   | clist op cs gr bl ty => exact unary_inv_boolE _ _ hc hw
   | unary op x ty =>
     simp only [negate]
@@ -437,8 +504,10 @@ theorem selfGroup_asbool_boolE (c : SaExpr) (h : BoolE c) : selfGroup (some .asb
   obtain ⟨hc, _, hs⟩ := h
   cases c with
   | binary op l r n esc ty =>
-    simp only [Core, Bool.and_eq_true] at hc
-    have := precOf_core_gt_asbool op (Or.inl hc.1.1.1)
+    have hop : coreBin op = true := by
+      cases n <;> cases esc <;> simp [boolShape] at hs
+      exact hs.1
+    have := precOf_core_gt_asbool op (Or.inl hop)
     simp [selfGroup, wouldGroup, this]
   | clist op cs gr bl ty =>
     simp only [Core, Bool.and_eq_true] at hc
@@ -597,7 +666,7 @@ open SaVerif.Expr.Gen SaVerif.Pratt SaExpr
 
 /-! ### `build` over the API-call fragment -/
 
-theorem pyReflected_num (x y : SaExpr) (hy : NumE y) : pyReflected x y = false := by
+theorem pyReflected_num (x y : SaExpr) (hy : OpndE y) : pyReflected x y = false := by
   have hs := hy.shape
   cases y with
   | clist op cs gr bl ty =>
@@ -881,7 +950,7 @@ theorem build_num : ∀ (u : U) (e : SaExpr), NumU u = true → build u = some e
       cases hb' : build b with
       | none => simp [ha, hb'] at hb
       | some y =>
-        simp only [ha, hb', arithK_isArith k hu.1.1, if_true, Option.some.injEq] at hb
+        simp only [ha, hb', numK_isArith k hu.1.1, if_true, Option.some.injEq] at hb
         subst hb
         exact binaryOperate_num x y k hu.1.1 (build_num a x hu.1.2 ha) (build_num b y hu.2 hb')
   | .ls _, _, hu, _ => by simp [NumU] at hu
@@ -956,6 +1025,59 @@ theorem build_searched : ∀ (us : List U) (es : List SaExpr), SearchedU us = tr
             · subst hx; exact nr.ty
             · exact ih.res x hx
 
+/-- **build_str**: string-valued API-call trees build well grouped core elements -/
+theorem build_str : ∀ (u : U) (e : SaExpr), StrU u = true → build u = some e → OpndE e
+  | .col n ty, e, _, hb => by
+    simp only [build, Option.some.injEq] at hb; subst hb
+    exact ⟨rfl, rfl, rfl⟩
+  | .ls s, e, _, hb => by
+    simp only [build, Option.some.injEq] at hb; subst hb
+    exact ⟨rfl, rfl, rfl⟩
+  | .bin k a b, e, hu, hb => by
+    simp only [StrU, Bool.and_eq_true, Bool.or_eq_true, decide_eq_true_eq] at hu
+    obtain ⟨⟨hk, hua⟩, hub⟩ := hu
+    subst hk
+    simp only [build] at hb
+    cases ha : build a with
+    | none => simp [ha] at hb
+    | some x =>
+      cases hb' : build b with
+      | none => simp [ha, hb'] at hb
+      | some y =>
+        simp only [ha, hb', BinK.isArith, if_true, Option.some.injEq] at hb
+        subst hb
+        have nx : OpndE x := by
+          rcases hua with h | h
+          · exact build_str a x h ha
+          · exact (build_num a x h ha).opnd
+        have ny : OpndE y := by
+          rcases hub with h | h
+          · exact build_str b y h hb'
+          · exact (build_num b y h hb').opnd
+        exact binaryOperate_concat x y nx ny
+  | .li _, _, hu, _ => by simp [StrU] at hu
+  | .ln _, _, hu, _ => by simp [StrU] at hu
+  | .lb _, _, hu, _ => by simp [StrU] at hu
+  | .null, _, hu, _ => by simp [StrU] at hu
+  | .true_, _, hu, _ => by simp [StrU] at hu
+  | .false_, _, hu, _ => by simp [StrU] at hu
+  | .like _ _ _ _, _, hu, _ => by simp [StrU] at hu
+  | .neg _, _, hu, _ => by simp [StrU] at hu
+  | .not_ _, _, hu, _ => by simp [StrU] at hu
+  | .between _ _ _, _, hu, _ => by simp [StrU] at hu
+  | .and_ _, _, hu, _ => by simp [StrU] at hu
+  | .or_ _, _, hu, _ => by simp [StrU] at hu
+  | .case_ _ _ _, _, hu, _ => by simp [StrU] at hu
+  | .cast _ _, _, hu, _ => by simp [StrU] at hu
+  | .coalesce _, _, hu, _ => by simp [StrU] at hu
+  | .subq _ _, _, hu, _ => by simp [StrU] at hu
+  | .inOp _ _ _, _, hu, _ => by simp [StrU] at hu
+  | .tupleIn _ _ _, _, hu, _ => by simp [StrU] at hu
+  | .pi _, _, hu, _ => by simp [StrU] at hu
+  | .ps _, _, hu, _ => by simp [StrU] at hu
+  | .strop _ _ _ _, _, hu, _ => by simp [StrU] at hu
+  | .absent, _, hu, _ => by simp [StrU] at hu
+
 /-- **build_bool**: boolean API-call trees build well grouped core elements -/
 theorem build_bool : ∀ (u : U) (e : SaExpr), BoolU u = true → build u = some e → BoolE e
   | .bin k a b, e, hu, hb => by
@@ -965,14 +1087,21 @@ theorem build_bool : ∀ (u : U) (e : SaExpr), BoolU u = true → build u = some
     cases ha : build a with
     | none => simp [ha] at hb
     | some x =>
-      have nx := build_num a x hna ha
-      have hpl : isPyLit a = false := by cases a <;> first | rfl | (simp [NumU] at hna)
+      have nx : OpndE x := by
+        rcases hna with h | h
+        · exact (build_num a x h ha).opnd
+        · exact build_str a x h ha
+      have hpl : isPyLit a = false := by
+        cases a <;> first | rfl | (rcases hna with h | h <;> simp [NumU, StrU] at h)
       cases hb' : build b with
       | none => simp [ha, hb'] at hb
       | some y =>
         simp only [ha, hb', cmpK_not_isArith k hk, Bool.false_eq_true, if_false] at hb
         rcases hbb with hnb | hnull
-        · have ny := build_num b y hnb hb'
+        · have ny : OpndE y := by
+            rcases hnb with h | h
+            · exact (build_num b y h hb').opnd
+            · exact build_str b y h hb'
           have hpr := pyReflected_num x y ny
           simp only [hpr, hpl, Bool.or_false, Bool.false_eq_true, if_false] at hb
           obtain ⟨e', he', be'⟩ := booleanCompare_num x y k hk nx ny
